@@ -162,7 +162,7 @@ def floors(tier):
 # labels can EQUAL a phantom-node number of _augmented_projection (phantoms are numbered from max(int labels) + 1, or
 # from 0 when no label is an `int` instance) or stress that numbering: integral floats, non-integral floats, negative
 # ints only, numpy integers (not `int` instances), ints mixed with larger integral floats, very large ints.
-LABEL_KINDS = ("str", "gap", "int", "intfloat", "float", "negint", "npint", "int+float", "bigint")
+LABEL_KINDS = ("str", "gap", "int", "intfloat", "float", "negint", "npint", "int+float", "bigint", "str+int")
 _BIG = [10**12 + i for i in range(6)] + [2**70 + i for i in range(6)] + [-(10**15), 2**63, 2**63 - 1]
 
 
@@ -185,6 +185,9 @@ def _pool(rng, big=False, nkind=None):
         pool = list(range(j)) + [float(i) for i in range(j, k)]
     elif nkind == "bigint":
         pool = rng.sample(_BIG, k)
+    elif nkind == "str+int":  # labels that cannot be ordered against each other (networks are built edge by edge, never through a bulk format)
+        j = rng.randint(1, k - 1)
+        pool = rng.sample(["a", "b", "c", "d", "e", "n1", "n10", "n2", "x", "yy"], j) + rng.sample(range(-5, 40), k - j)
     else:  # pragma: no cover
         raise AssertionError(nkind)
     rng.shuffle(pool)  # insertion order != sorted order
@@ -236,6 +239,8 @@ def gen_hypergraph(rng, need_big_edge, big=False, nkind=None):
 
 
 def gen_complex(rng, need_big_edge, big=False, nkind=None):
+    if nkind == "str+int":  # layouts and drawings of a complex rebuild it through from_max_simplices -> add_edges_from (member LISTS): a first
+        nkind = "str"       # edge ['a', 1] is refused there by design ("Members cannot be specified as a string"), DESIGN 1.4
     nkind, pool = _pool(rng, big, nkind)
     S = xgi.SimplicialComplex()
     feats = set()
@@ -520,6 +525,7 @@ VALUE_KINDS = ("tuple", "list", "array-f64", "array-f32", "array-int", "list-int
 EXTRA = {
     "int": (97, 98, 99), "gap": (51, -9, 77), "str": ("zz9", "new", "q7"), "intfloat": (97.0, 98.0, 99.0), "float": (97.5, 98.25, 99.75),
     "negint": (-97, -98, -99), "npint": (np.int64(97), np.int64(98), np.int32(99)), "int+float": (97.0, 98, 99.0), "bigint": (10**13 + 1, 2**71, -(10**16)),
+    "str+int": ("zz9", 98, "q7"),
 }
 
 
@@ -705,9 +711,9 @@ def node_style(rng, net, shape, mon):
         if rng.random() < 0.8:
             kw["node_fc"] = _wrap(c, nodes, _colors_or_floats(rng, n))
         if rng.random() < 0.8:
-            kw["node_size"] = _wrap(c, nodes, [rng.randint(1, 25) for _ in range(n)])
+            kw["node_size"] = _wrap(c, nodes, [rng.randint(1, 25) for _ in range(n)] if rng.random() < 0.75 else [rng.randint(1, 25)] * n)  # also: all values equal
         if rng.random() < 0.6:
-            kw["node_lw"] = _wrap(c, nodes, [round(rng.uniform(0, 4), 2) for _ in range(n)])
+            kw["node_lw"] = _wrap(c, nodes, [round(rng.uniform(0, 4), 2) for _ in range(n)] if rng.random() < 0.75 else [round(rng.uniform(0.5, 4), 2)] * n)
         if rng.random() < 0.4:
             kw["node_ec"] = [rng.choice(COLOR_STRS) for _ in range(n)]
         return kw
@@ -751,7 +757,7 @@ def edge_style(rng, net, shape, mo, mon):
                 else:
                     kw["dyad_color"] = _wrap(c, dy_ids, _colors_or_floats(rng, len(dy_ids)))
             if rng.random() < 0.7:
-                kw["dyad_lw"] = _wrap(c, dy_ids, [round(rng.uniform(0.5, 6), 2) for _ in dy_ids])
+                kw["dyad_lw"] = _wrap(c, dy_ids, [round(rng.uniform(0.5, 6), 2) for _ in dy_ids] if rng.random() < 0.75 else [round(rng.uniform(0.5, 6), 2)] * len(dy_ids))
         if pl_ids:
             for arg in ("edge_fc", "edge_ec"):
                 if rng.random() < 0.7:
@@ -859,6 +865,14 @@ class Geo:
         n = len(self.nodes)
         if off.shape != (n, 2):
             return self.fire("any", "marker-count-wrong", f"{off.shape[0] if off.ndim else 0} markers for {n} nodes", call)
+        # a marker whose size or outline width is NaN / infinite is not rendered at all
+        try:
+            sz, lw = np.asarray(coll.get_sizes(), dtype=float), np.asarray(coll.get_linewidths(), dtype=float)
+        except Exception:
+            sz = lw = np.zeros(0)
+        self.mon.note("geometry:marker-sizes-finite")
+        if not (np.isfinite(sz).all() and np.isfinite(lw).all()):
+            return self.fire("any", "marker-not-rendered-nonfinite-size", f"marker sizes {sz.tolist()} / outline widths {lw.tolist()} for nodes {self.nodes}", call)
         if self.pos is None:
             return True
         want = np.asarray([np.asarray(self.pos[v], dtype=float) for v in self.nodes])
@@ -874,6 +888,12 @@ class Geo:
             segs = [np.asarray(s, dtype=float) for s in coll.get_segments()]
         except Exception as exc:
             return self.fire("any", "no-line-collection", f"returned dyad collection {coll!r} has no segments ({exc!r})", call)
+        try:
+            lw = np.asarray(coll.get_linewidths(), dtype=float)
+        except Exception:
+            lw = np.zeros(0)
+        if not np.isfinite(lw).all():
+            return self.fire("any", "line-not-rendered-nonfinite-width", f"line widths {lw.tolist()}", call)
         if self.pos is None:
             if len(segs) != sum(lines.values()):
                 return self.fire("any", "line-multiset-wrong", f"{len(segs)} lines for {sum(lines.values())} two-node edges", call)
@@ -1021,6 +1041,7 @@ FRESH = {
     "int": list(range(20, 60)), "gap": list(range(60, 120)), "str": [f"s{i}" for i in range(40)], "intfloat": [float(i) for i in range(20, 60)],
     "float": [i + 0.5 for i in range(20, 60)], "negint": list(range(-100, -60)), "npint": [np.int64(i) for i in range(40, 80)],
     "int+float": [float(i) for i in range(20, 60)], "bigint": [10**12 + 1000 + i for i in range(40)],
+    "str+int": [f"s{i}" if i % 2 else 100 + i for i in range(40)],
 }
 
 
